@@ -181,6 +181,22 @@ def problems(tier):
         for nm in names[1:]:
             e = ("bin", "+", e, ("var", nm))
         out.append(dict(tag="names:" + ",".join(names), obj=e, sense="min", cons=[], bounds={}))
+    # containers whose BASE name carries digits (element names have two or three digit chunks)
+    w2, w10, w02 = ("vec", "w2", 3), ("vec", "w10", 3), ("vec", "w02", 2)
+    B2, B10 = ("mat", "B2", 2, 2), ("mat", "B10", 2, 2)
+    big2 = ("vec", "q9", 11)
+    plus = lambda a, b_: ("bin", "+", a, b_)  # noqa: E731
+    nb = {"w2": (0.0, S("uv")), "w10": (S("lv"), 10.0), "w02": (None, None), "B2": (0.0, None), "B10": (None, S("ux")), "q9": (S("lv"), None), "q10": (None, None)}
+    for tag_, o, c in [
+        ("sum(w2)+sum(w10)", plus(("vsum", w2), ("vsum", w10)), [("ge", plus(("velem", w2, 0), ("velem", w10, 0)), ("num", 1.0))]),
+        ("sum(w10)+sum(w2)", plus(("vsum", w10), ("vsum", w2)), []),
+        ("w2.w2+w10^2", plus(("dot", w2, w2), ("bin", "*", ("var", "w10"), ("var", "w10"))), []),
+        ("sum(w2)+sum(w02)", plus(("vsum", w2), ("vsum", w02)), []),
+        ("sum(B2)+sum(B10)", plus(("msum", B2), ("msum", B10)), [("le", ("trace", B10), ("num", 1.0))]),
+        ("sum(q9)+sum(q10[::-1])", plus(("vsum", big2), ("vsum", ("slice", ("vec", "q10", 3), None, None, -1))), []),
+        ("sum(w10[::-1])", ("vsum", ("slice", w10, None, None, -1)), [("ge", ("vsum", w2), ("num", 0.0))]),
+    ]:
+        out.append(dict(tag=f"digit-names:{tag_}", obj=o, sense="min", cons=c, bounds=nb))
     return out
 
 
